@@ -296,14 +296,17 @@ Proof.
     + intros _. right. right. exists k, v. split; [reflexivity|exact Hv].
   - discriminate.
 Qed.
-(* GenericPurlBuilder: no call panics *)
-Theorem xstep_never_panics {T} (b : T * parts) o : xstep cfg b o <> Err StopPanic.
+(* GenericPurlBuilder: no call panics, except the documented one: a typed qualifier whose declared KEY is not a valid key *)
+Theorem xstep_never_panics {T} (b : T * parts) o : xstep cfg b o = Err StopPanic -> exists k v, o = XTyped k v /\ valid_key cfg k = false.
 Proof.
   destruct b as [t p]. destruct o; cbn [xstep]; try discriminate.
   - destruct (q_insert cfg (p_quals p) k v); discriminate.
   - rewrite cap_ok. destruct (cs_to_text (crun cfg ops)) as [txt|]; [|discriminate]. destruct (insert_valid_ok (p_quals p) s_checksum txt Hck) as [q' ->]. discriminate.
   - destruct (insert_valid_ok (p_quals p) s_repo s Hrp) as [q' ->]. discriminate.
   - destruct (q_insert cfg (p_quals p) k v); discriminate.
+  - destruct (valid_key cfg k) eqn:Hv.
+    + destruct (insert_valid_ok (p_quals p) k v Hv) as [q' ->]. discriminate.
+    + intros _. exists k, v. split; [reflexivity|exact Hv].
 Qed.
 Theorem cs_text_never_panics m : cs_text_of cfg m <> CsPanic.
 Proof. unfold cs_text_of. rewrite cap_ok. destruct (cs_to_text m); discriminate. Qed.
